@@ -1041,6 +1041,9 @@ def c11(ctx):
                       script_only_fams=("race",))
     cad = store_special(ctx, "TestCadence")
     cov["cadence"] = cad
+    # "... and the cache holds the same": polls and lookups overlapping their cache writes on a slow cache (real goroutines); at
+    # quiescence the document is the one made from the last state
+    cov["concurrent_flush_runs"] = cache_order(ctx, 150 if ctx.thorough else 20)
     return "model_checking", cov, ["freshness is judged by version number, as the protocol does"]
 
 
@@ -1477,7 +1480,7 @@ def c18(ctx):
     conc_reads = ctx.take(results, "e2e-concurrent")["counters"].get("reads", 0) if "e2e-concurrent" in results else 0
     # the CLI table
     cli = build_setec_cli(ctx)
-    results, wd2, _ = ctx.godrive("e2e", "^TestPutCli$", env={"VERIF_SETEC_BIN": cli, "VERIF_REPS": 6 if th else 2}, name="putcli", timeout=3000)
+    results, wd2, _ = ctx.godrive("e2e", "^TestPutCli$", env={"VERIF_SETEC_BIN": cli, "VERIF_REPS": 8 if th else 4}, name="putcli", timeout=3000)
     rc = ctx.take(results, "e2e-putcli")
     tot = validate_trace_chunks(
         ctx, "PutCliTrace", "PutCliTrace.cfg", os.path.join(wd2, "trace.ndjson"), 4,
